@@ -283,6 +283,9 @@ def _situation(att, p, p2, bad, env):
             if isinstance(pn, LoopIR.If) and pn.orelse and "assertFail" in bad:
                 return "path-condition-taken-from-sibling-if-orelse"
             prev = prev.prev()
+    if op == "inline" and isinstance(n, LoopIR.Call):
+        if any(isinstance(x, LoopIR.ReadConfig) for ar in n.args for x in walk(ar)) and cfg_writes(n.f.body):
+            return "config-reading-actual-substituted-after-callee-write"
     if op == "reuse_buffer":
         if att["path"][:-1] != a["other"][:-1]:
             return "target-allocation-in-another-scope"
@@ -349,6 +352,11 @@ def _situation(att, p, p2, bad, env):
                 return "staged-buffer-written-through-call-never-stored-back"
     if op == "autofission":
         return "no-dependence-check"
+    if op == "lift_reduce_constant":
+        if isinstance(n, LoopIR.Reduce):
+            return "first-statement-is-a-reduce"
+        if isinstance(n, LoopIR.Assign) and not (isinstance(n.rhs, LoopIR.Const) and n.rhs.val == 0):
+            return "initial-value-not-zero"
     DIM_OPS = ("expand_dim", "divide_dim", "mult_dim", "unroll_buffer", "resize_dim", "rearrange_dim")
     if op in DIM_OPS and isinstance(n, LoopIR.Alloc):
         rest = _rest_of_block(c)
